@@ -450,6 +450,11 @@ def main(argv=None):
     a = ap.parse_args(argv)
     seed = int(os.environ.get("VERIF_SEED", "0") or 0)
     sys.path.insert(0, VERIF)
+    try:
+        from loguru import logger
+        logger.remove()
+    except Exception:
+        pass
     if a.replay:
         return replay_file(a.prop, a.replay)
     try:
